@@ -261,6 +261,23 @@ class Threading:
             if callee_ref(n) == "cmi_aligned_alloc":
                 return Val("ptr", Poly(), 1)
             return UNK
+        if k == "ArraySubscriptExpr":
+            # p[i] is *(p + i)
+            a, b = self.ev(kids(n)[0]), self.ev(kids(n)[1])
+            if a.kind == "ptr" and b.kind == "int":
+                addr = Val("ptr", a.p + b.p.scale(a.esz), a.esz)
+                return self.mem.get(tuple(sorted(addr.p.items())), UNK)
+            return UNK
+        if k == "UnaryOperator" and n.get("opcode") == "&":
+            t = strip(kids(n)[0])
+            if t["kind"] == "ArraySubscriptExpr":
+                a, b = self.ev(kids(t)[0]), self.ev(kids(t)[1])
+                if a.kind == "ptr" and b.kind == "int":
+                    return Val("ptr", a.p + b.p.scale(a.esz), a.esz)
+                return UNK
+            if t["kind"] == "UnaryOperator" and t.get("opcode") == "*":
+                return self.ev(kids(t)[0])
+            return UNK
         if k == "UnaryOperator":
             op = n.get("opcode")
             if op == "*":
@@ -434,6 +451,13 @@ class Threading:
                 val = Val("ptr", val.p, es if es is not None else val.esz)
             self.env[nm] = val
             return
+        if l["kind"] == "ArraySubscriptExpr":
+            a, b = self.ev(kids(l)[0]), self.ev(kids(l)[1])
+            if a.kind == "ptr" and b.kind == "int":
+                self.store(Val("ptr", a.p + b.p.scale(a.esz), a.esz), val, node, facts)
+                return
+            if a.kind == "ptr":
+                raise AnalysisBroken("IDX: chunk subscripted with an index outside the fragment at line %s" % node.get("line"))
         if l["kind"] == "UnaryOperator" and l.get("opcode") == "*":
             t = self.ev(kids(l)[0])
             if t.kind == "ptr":
@@ -575,15 +599,26 @@ class Threading:
         for key, val in self.mem.items():
             if val.kind == "ptr":
                 links.append((Poly(dict(key)), val))
+        # where a loop variable "is": a pointer is at its own offset; an integer index is at base + index * element size for
+        # the (loop-invariant) chunk pointers it can subscript
+        bases = [a_ for nm_, a_ in self.env.items() if a_.kind == "ptr" and nm_ not in ivars]
+
+        def positions(val_):
+            if val_.kind == "ptr":
+                return [val_.p]
+            if val_.kind == "int":
+                return [b_.p + val_.p.scale(b_.esz) for b_ in bases]
+            return []
+        self._positions = positions
         for tp, val in links:
-            followers = [v for v in ivars if before[v].kind == "ptr" and (before[v].p - tp) == Poly()]
-            okf = any((self.env[v].p - val.p) == Poly() for v in followers if self.env[v].kind == "ptr")
+            followers = [v for v in ivars if any((q_ - tp) == Poly() for q_ in positions(before[v]))]
+            okf = any((q_ - val.p) == Poly() for v in followers for q_ in positions(self.env[v]))
             # (the increment expression may still advance the pointer)
             if not okf and inc_nodes:
                 snap = dict(self.env)
                 for i_ in inc_nodes:
                     self.stmt(i_, f_body)
-                okf = any((self.env[v].p - val.p) == Poly() for v in followers if self.env[v].kind == "ptr")
+                okf = any((q_ - val.p) == Poly() for v in followers for q_ in positions(self.env[v]))
                 self.env = snap
             self.obligations.append(("the walk continues at the object it linked (chunk+%s)" % val.p.show(), okf, loc(s),
                                      "the pointer does not advance to the link it stored: objects are skipped or revisited"))
@@ -594,7 +629,7 @@ class Threading:
                                      % (tp.show(), val.p.show())))
         if not links:
             self.obligations.append(("the loop links objects", False, loc(s), "no link is stored in the loop body"))
-        self.followers = [v for v in ivars if before[v].kind == "ptr" and any((before[v].p - tp) == Poly() for tp, _ in links)]
+        self.followers = [v for v in ivars if any((q_ - tp) == Poly() for tp, _ in links for q_ in positions(before[v]))]
         for i_ in inc_nodes:
             self.stmt(i_, f_body)
         self.loops.append({"line": s.get("line"), "guard": render(cond), "induction": {v: steps[v].show() for v in ivars},
@@ -627,7 +662,11 @@ class Threading:
             for s in stmts:
                 self.stmt(s, f)
             # the list must end in NULL at the last object linked (the loop pointer's final position)
-            ends = [self.mem.get(tuple(sorted(self.env[v].p.items()))) for v in self.followers]
+            ends = []
+            for v in self.followers:
+                got = [self.mem.get(tuple(sorted(q_.items()))) for q_ in self._positions(self.env[v])]
+                hit = [e for e in got if e is not None]
+                ends.append(hit[0] if hit else None)
             ok = bool(ends) and all(e is not None and e.kind == "null" for e in ends)
             self.obligations.append(("the last linked object is terminated with NULL (exit case %s)" % (itp.show()), ok,
                                      loc(stmts[0]) if stmts else None,
